@@ -136,7 +136,15 @@ func ruleG2(c *Ctx, id string) {
 			continue
 		}
 		ok := cs.Caller == V.AllocInode || cs.Caller == mkroot
-		R.Check(ok, id, FuncName(cs.Caller)+"|calls InitInode", P.Pos(cs.Instr.Pos()), "InitInode is called only by AllocInode and MkRootInode", "known caller", "an inode initialised outside allocation")
+		why := "known caller"
+		if !ok && cs.Caller.Name() == "makeRootDir" && relPkg(cs.Caller) == "nfs" {
+			// mkfs creates the root inode inside the root-directory transaction; only reachable from the constructor
+			serving := P.Reach(V.NfsEntries, func(f *ssa.Function) bool { return !IsRepoFunc(f) })
+			if !serving[cs.Caller] {
+				ok, why = true, "mkfs (constructor only): root inode created in the root-directory transaction"
+			}
+		}
+		R.Check(ok, id, FuncName(cs.Caller)+"|calls InitInode", P.Pos(cs.Instr.Pos()), "InitInode is called only by AllocInode and by mkfs", why, "an inode initialised outside allocation")
 	}
 	for _, cs := range P.CallersOf(V.FreeInode) {
 		if !IsRepoFunc(cs.Caller) {
